@@ -287,7 +287,9 @@ func (r *Registry) ZeroArray(s Sort, v Term) Term {
 	}
 	if !r.seen[name] {
 		r.Declare(name, fmt.Sprintf("(declare-const %s %s)", name, s))
-		r.Axiom(fmt.Sprintf("(assert (forall ((i %s)) (! (= (select %s i) %s) :pattern ((select %s i)))))", arrayIdx(s), name, val, name))
+		// z3 form (constant array); the solver runner rewrites this line into a quantified
+		// axiom for cvc5, which only accepts values in constant arrays
+		r.Axiom(fmt.Sprintf("(assert (= %s ((as const %s) %s))) ;zarr %s %s", name, s, val, arrayIdx(s), val))
 	}
 	return Term{name, s}
 }
